@@ -547,10 +547,20 @@ func (a *AttributeExpr) SetDefault(def any) {
 // its bases and references. If the parent attribute is not an object, it
 // returns nil.
 func (a *AttributeExpr) Find(name string) *AttributeExpr {
+	return a.find(name, make(map[*AttributeExpr]struct{}))
+}
+
+// find implements Find, seen records the attributes already visited so that
+// types that extend or reference each other do not cause an endless recursion.
+func (a *AttributeExpr) find(name string, seen map[*AttributeExpr]struct{}) *AttributeExpr {
+	if _, ok := seen[a]; ok {
+		return nil
+	}
+	seen[a] = struct{}{}
 	findAttrFn := func(typ DataType) *AttributeExpr {
 		switch t := typ.(type) {
 		case UserType:
-			return t.Attribute().Find(name)
+			return t.Attribute().find(name, seen)
 		case *Object:
 			if att := t.Attribute(name); att != nil {
 				return att
